@@ -65,9 +65,9 @@ def _histories(ops_lines):
         yield start, cur
 
 
-def _run_both(ctx, go, model, ops_path, tag):
+def _run_both(ctx, go, model, ops_path, tag, env=None):
     a, b = ctx.path(tag + ".impl"), ctx.path(tag + ".model")
-    rc, err = ctx.run_lines(go, ["drive"], ops_path, a, timeout=1800)
+    rc, err = ctx.run_lines(go, ["drive"], ops_path, a, timeout=1800, env=env)
     if rc != 0:
         ctx.fatal("implementation driver failed rc=%d %s" % (rc, err[-800:]))
     rc, err = ctx.run_lines(model, [], ops_path, b, timeout=1800)
@@ -85,12 +85,26 @@ def _shard(ctx, go, model, n, shard):
     return ops, a, b
 
 
-def _differs(ctx, go, model, lines, tag="min"):
-    """do implementation and model differ on this history?  (used by ddmin)"""
+def _differs(ctx, go, model, lines, tag="min", fast=False):
+    """do implementation and model differ on this history?  (used by ddmin; `fast` shortens the harness's
+    waits — only ever used on a history that already failed under the generous timeout, and the minimised
+    history is confirmed under the generous timeout again)"""
     p = ctx.path(tag + ".ops")
     open(p, "w").write("\n".join(lines) + "\n")
-    a, b = _run_both(ctx, go, model, p, tag)
+    a, b = _run_both(ctx, go, model, p, tag, env=dict(SCOPE_TIMEOUT_MS="1500") if fast else None)
     return open(a).read() != open(b).read()
+
+
+def _minimise(ctx, go, model, hist, budget=80):
+    left = [budget]
+
+    def fails(ls):
+        if left[0] <= 0:
+            return False
+        left[0] -= 1
+        return _differs(ctx, go, model, ls, fast=True)
+    small = ctx.ddmin(hist, fails, keep_prefix=1)
+    return small if _differs(ctx, go, model, small) else hist
 
 
 def _judge(ctx, go, lines):
@@ -242,7 +256,7 @@ def run(ctx):
         if hist is None or "\n".join(hist) in seen_hist or len(seen_hist) >= 3:
             continue
         seen_hist.add("\n".join(hist))
-        small = ctx.ddmin(hist, lambda ls: _differs(ctx, go, model, ls), keep_prefix=1)
+        small = _minimise(ctx, go, model, hist)
         verdict = _judge(ctx, go, small) or _judge(ctx, go, hist)
         p = ctx.path("small.ops")
         open(p, "w").write("\n".join(small) + "\n")
